@@ -16,15 +16,15 @@ V(k) == IF Cardinality(viol) >= 40 THEN viol ELSE viol \cup {<<"C07", tid, l, k>
 \* the policy state record of a logged line (ids beyond the run's n have weight 0)
 Rec(e, evs) == [win |-> e.win, pb |-> e.pb, pt |-> e.pt, lenW |-> e.lenW, lenB |-> e.lenB, lenT |-> e.lenT,
                 cntW |-> e.cntW, cntB |-> e.cntB, cntT |-> e.cntT, capW |-> e.capW, capT |-> e.capT, ws |-> e.ws,
-                amt |-> e.amt, pw |-> [i \in Ids |-> IF i <= Len(e.pw) THEN e.pw[i] ELSE 0], ev |-> evs, ok |-> TRUE]
+                amt |-> e.amt, pw |-> [i \in Ids |-> IF i <= Len(e.pw) THEN e.pw[i] ELSE 0], ev |-> evs, adm |-> <<>>, ok |-> TRUE]
 
 TraceInit == l = 1 /\ st = Init0 /\ tid = "none" /\ capSum = 0 /\ viol = {} /\ div = 0 /\ nops = 0 /\ nseg = 0 /\ done = FALSE
 
 Choices == [1..N -> BOOLEAN]
 Expected(pre, e) ==
-  CASE e.op = "set" -> {PSet(pre, e.e, e.a, ch) : ch \in Choices}
+  CASE e.op = "set" -> {[PSet(pre, e.e, e.a, ch) EXCEPT !.adm = <<>>] : ch \in Choices}
     [] e.op = "access" -> {PAccess(pre, e.e)}
-    [] e.op = "update" -> {PUpdate(pre, e.e, e.a, ch) : ch \in Choices}
+    [] e.op = "update" -> {[PUpdate(pre, e.e, e.a, ch) EXCEPT !.adm = <<>>] : ch \in Choices}
     [] e.op = "remove" -> {PRemove(pre, e.e)}
     [] e.op = "resize" -> {Resize(pre, e.a)}
     [] OTHER -> {}
